@@ -43,6 +43,9 @@ type valCase struct {
 	Spec    string      `json:"spec"`
 	Custom  *customCaps `json:"custom"`
 	Extra   bool        `json:"extraflag"` // also declare a plain bool option -x (clusters, groups)
+	// Siblings: 1 or 2 = the variable is declared (through the Ptr entry points) by two sub commands that share it, the addressed
+	// one being declared first (1) or second (2); the other one has another default and the environment variable VERIF_SIBLING_ENV
+	Siblings int        `json:"siblings"`
 	Conv    bool        `json:"conv"`      // declare through the convenience methods (BoolOpt(name, value, desc), ...Ptr): no env, no SetByUser
 }
 
@@ -232,6 +235,10 @@ func runValues(c valCase) (r valResult) {
 		}
 	}
 	envList := strings.Join(names, " ")
+	if c.Siblings > 0 {
+		runSiblings(c, &r, envList, &errBuf)
+		return
+	}
 	var sbu bool
 	var log []string
 	var read func() []string
